@@ -118,10 +118,11 @@ class HistoryGen:
         self.max_ops = max_ops
         self.pool = []
         self.free = 0
+        self.partial_axioms = []
         self.touch_stale = rng.random() < 0.03
         self.p_not = rng.choice([0.0, 0.2, 0.4, 0.6])
         self.w = {'axiom': rng.choice([1, 2, 4]), 'pattern': rng.choice([1, 2, 3]), 'prim': rng.choice([0, 1, 2]),
-                  'inst': rng.choice([2, 4, 6]), 'instpat': rng.choice([0, 1, 2]), 'mp': rng.choice([2, 4, 6]),
+                  'inst': rng.choice([2, 4, 6]), 'instpat': rng.choice([1, 1, 2]), 'mp': rng.choice([2, 4, 6]),
                   'gen': rng.choice([0, 1, 3]), 'save': rng.choice([1, 2]), 'load': rng.choice([1, 2]),
                   'pop': rng.choice([0, 1]), 'publish': rng.choice([0, 1, 2])}
 
@@ -188,11 +189,44 @@ class HistoryGen:
             if rng.random() < 0.1:
                 self.op(['save'], [OP['Save']])
             self.op(['publish_axiom'], [OP['Publish']])
+        if rng.random() < 0.25:
+            self.partial_notation_axiom()
         if rng.random() < 0.2:
             self.op_pattern(self.ext())
             self.op(['save'], [OP['Save']])
             if rng.random() < 0.5:
                 self.op(['pop'], [OP['Pop']])
+
+    def partial_notation_axiom(self):
+        """gamma: an axiom that is a *partial* notation application (one metavariable of the
+        definition left open); the proof phase instantiates the open one with a plug that mentions
+        the bound one (composition of the two maps)."""
+        rng = self.rng
+        a, b = rng.sample([0, 1, 2, 3], 2)
+        ma, mb = T.mv(a), T.mv(b)
+        body = rng.choice([T.imp(ma, mb), T.imp(mb, T.imp(ma, mb)), T.app(T.sym(0), T.imp(ma, mb)), T.imp(N(NEG_BODY, ma), mb) if a == 0 else T.imp(ma, mb)])
+        arg = self.ext(depth=rng.randint(0, 1))
+        ax = ('N', body, ((a, arg),))
+        try:
+            expand(ax)
+        except T.Abort:
+            return
+        self.partial_axioms.append((ax, a, b))
+        self.op_pattern(ax)
+        self.op(['publish_axiom'], [OP['Publish']])
+
+    def op_partial_inst(self):
+        rng = self.rng
+        if not self.partial_axioms:
+            return
+        ax, a, b = rng.choice(self.partial_axioms)
+        t = expand(ax)
+        if ('T', t) not in self.gm.memory:
+            return
+        plug = rng.choice([T.mv(a), T.imp(T.mv(a), T.mv(b)), T.imp(T.mv(a), self.ext(depth=1)), N(NEG_BODY, T.mv(a))])
+        self.op_pattern(plug)
+        self.op_load(self.gm.memory.index(('T', t)))
+        self.op(['instantiate', [b]], [OP['Instantiate'], 1, b])
 
     def source(self):
         rng = self.rng
@@ -389,7 +423,9 @@ class HistoryGen:
             elif o == 'pattern': self.op_pattern(self.ext())
             elif o == 'prim': self.prim()
             elif o == 'inst': self.op_inst()
-            elif o == 'instpat': self.op_instpat()
+            elif o == 'instpat':
+                if self.partial_axioms and rng.random() < 0.5: self.op_partial_inst()
+                else: self.op_instpat()
             elif o == 'mp': self.op_mp()
             elif o == 'gen': self.op_gen()
             elif o == 'save':
